@@ -31,7 +31,7 @@ import (
 	"verifharness/memstore"
 )
 
-var stats = evid.New("C08", "rapid: 3 repos {r, rx, r-x} with 2..4 bundles each (real uploads, chosen KSUIDs), CRC or plain stores, a universe of 3..8 label names (documented alphabet: small ascii pool built to collide when path components are glued, unicode letters/digits/hyphens/connectors, YAML-looking words, path words; hostile: slashes, dots, spaces, control characters, YAML indicators, invalid UTF-8, semver), then <= 25 ops: set/overwrite, DeleteLabel (live or missing), DownloadDescriptor (with/without repo check), ListLabels / ListLabelsApply with prefix, batch size 1..3 (pagination) and list concurrency.  Oracle: map model; after every mutating op every (repo, name) is resolved and every repo listed; store generations prove a set changes exactly one label object and no bundle.  Non-trivial: history with an overwrite and a delete of a live label and live labels in >= 2 prefix-sharing repos; distinct by (set-count class, overwrite, delete, re-create, same name in 2 repos, multi-page list, effective prefix list, name classes, hostile accepted/rejected).")
+var stats = evid.New("C08", "rapid: 3 repos {r, rx, r-x} with 2..4 bundles each (real uploads, chosen KSUIDs), CRC or plain stores, a universe of 3..8 label names (documented alphabet: small ascii pool built to collide when path components are glued, unicode letters/digits/hyphens/connectors, YAML-looking words, path words; hostile: slashes, dots, spaces, control characters, YAML indicators, invalid UTF-8, semver), optionally a crowd of 5..12 labels in one repo, then <= 25 ops: set/overwrite, DeleteLabel (live or missing), DownloadDescriptor (with/without repo check), ListLabels / ListLabelsApply with prefix, batch size 1..3 (pagination) and list concurrency.  Oracle: map model; after every mutating op every (repo, name) is resolved and every repo listed; store generations prove a set changes exactly one label object and no bundle.  Non-trivial: history with an overwrite and a delete of a live label and live labels in >= 2 prefix-sharing repos; distinct by (set-count class, overwrite, delete, re-create, same name in 2 repos, >= 5 labels in a repo, multi-page list, effective prefix list, name classes, hostile accepted/rejected).")
 
 func TestMain(m *testing.M) {
 	code := m.Run()
@@ -226,6 +226,21 @@ func drawCase(t *rapid.T) caseT {
 		name string
 	}
 	var presumed []pk
+	// one case in five starts with a crowd: 5..12 labels in one repo (several pages, more keys per batch than
+	// list workers)
+	if rapid.IntRange(0, 4).Draw(t, "crowd") == 2 {
+		repo := rapid.IntRange(0, len(repoNames)-1).Draw(t, "crowd_repo")
+		k := rapid.IntRange(5, 12).Draw(t, "crowd_n")
+		pool := append(append([]string{}, asciiPool...), uniPool...)
+		off := rapid.IntRange(0, len(pool)-1).Draw(t, "crowd_off")
+		for j := 0; j < k; j++ {
+			n := pool[(off+j)%len(pool)]
+			o := opT{Kind: "set", Repo: repo, Name: n, NameQ: fmt.Sprintf("%+q", n), Class: nameClass(n, "hostile"),
+				Bundle: rapid.IntRange(0, c.NB[repo]-1).Draw(t, "bundle")}
+			c.Ops = append(c.Ops, o)
+			presumed = append(presumed, pk{repo, n})
+		}
+	}
 	for i := 0; i < nops; i++ {
 		o := opT{}
 		o.Repo = rapid.IntRange(0, len(repoNames)-1).Draw(t, "repo")
@@ -467,7 +482,7 @@ type runT struct {
 	// class observations
 	nSet, nOverwrite, nDelLive, nDelMissing, nRecreate, nRejected, nHostileAcc int
 	cross, multiPage, effPrefix, ghost                                         bool
-	maxRepos, turn                                                             int
+	maxRepos, turn, maxPerRepo                                                 int
 	classes                                                                    map[string]bool
 }
 
@@ -714,6 +729,9 @@ func (r *runT) step(o opT) error {
 		if n := r.reposWithLabels(); n > r.maxRepos {
 			r.maxRepos = n
 		}
+		if n := len(r.want(o.Repo, "")); n > r.maxPerRepo {
+			r.maxPerRepo = n
+		}
 		// "Any label name the API accepts can afterwards be listed and resolved" + nothing else changed
 		return r.checkAll(o.Repo)
 	case "del":
@@ -769,7 +787,7 @@ func runCase(c caseT) (*runT, error) {
 	}
 	// final: all listing flavours agree with the model, bundles are what they were
 	for ri := range repoNames {
-		for _, lo := range []listOpt{{Batch: 1, Conc: 1}, {Apply: true, Batch: 2}} {
+		for _, lo := range []listOpt{{Batch: 1, Conc: 1}, {Apply: true, Batch: 2}, {Conc: 1}} {
 			if err := r.checkList(ri, lo); err != nil {
 				return r, fmt.Errorf("final: %v", err)
 			}
@@ -825,8 +843,9 @@ func (r *runT) signature() (string, bool) {
 		h = "rejected"
 	}
 	nt := r.nOverwrite > 0 && r.nDelLive > 0 && r.maxRepos >= 2
-	sig := fmt.Sprintf("set=%s ow=%v del=%v delmiss=%v recreate=%v cross=%v pages=%v prefix=%v repos=%d classes=%s hostile=%s",
-		bucket(r.nSet), r.nOverwrite > 0, r.nDelLive > 0, r.nDelMissing > 0, r.nRecreate > 0, r.cross, r.multiPage, r.effPrefix, r.maxRepos, strings.Join(cl, "+"), h)
+	sig := fmt.Sprintf("set=%s ow=%v del=%v delmiss=%v recreate=%v cross=%v pages=%v prefix=%v repos=%d crowd=%v classes=%s hostile=%s",
+		bucket(r.nSet), r.nOverwrite > 0, r.nDelLive > 0, r.nDelMissing > 0, r.nRecreate > 0, r.cross, r.multiPage, r.effPrefix, r.maxRepos, r.maxPerRepo >= 5,
+		strings.Join(cl, "+"), h)
 	return sig, nt
 }
 
@@ -888,6 +907,7 @@ func record(c caseT, r *runT) {
 	stats.Count("cases_multi_page_list", b2i(r.multiPage))
 	stats.Count("cases_effective_prefix_list", b2i(r.effPrefix))
 	stats.Count("cases_missing_repo", b2i(r.ghost))
+	stats.Count("cases_5_or_more_labels_in_a_repo", b2i(r.maxPerRepo >= 5))
 	stats.Count("cases_nontrivial", b2i(nt))
 }
 
